@@ -213,7 +213,9 @@ def materializeReshapeRun (shapeIsConst : Bool) (outShape : Option Shape) : Outc
     | none => .nofire
     | some os =>
       let symCount := (os.filter (fun d => !d.isInt)).length
-      if symCount ≤ 1 then
+      -- guard added by commit 49df852 (D16c2): no `-1` beside a static zero dim
+      if symCount == 1 && os.any (fun d => d == .known 0) then .nofire
+      else if symCount ≤ 1 then
         .fire { shape := os.map (fun d => match d with | .known n => Int.ofNat n | _ => -1), allowzero := some 1 }
       else .nofire
 
